@@ -78,14 +78,14 @@ def run(rep):
         tlc.require_ok(rd, "MC_MetaGrammar_Dir")
         rep.add_mc("MC_MetaGrammar_Dir", rd, ["DevDirection"])
         for d in TX_DEVS:      # the module is not vacuous: each clause breaks TxAgrees
-            _, rv = mg.tlc_generate("quick", dev=d)
+            rv = mg.tlc_invariants(rep.tier, d)
             if rv.violated != "TxAgrees":
                 raise tlc.MachineryError(f"deviation {d} does not violate TxAgrees in the model ({rv.violated}, {rv.error})")
             rep.note(f"Dev={{{d}}}: TxAgrees violated in the model, as it must be")
     cases, total_mut = mg.build_cases(base, rng, rep.tier)
     cases = mg.witness_cases(findings) + cases
     rep.bounds.update(budgets=mg.BUDGETS[rep.tier], generated=len(base), mutants_total=total_mut,
-                      corpus=len(cases), by_seed={mg.SEED_NAMES[s]: sum(1 for b in base if b["seed"] == s)
+                      corpus=len(cases), by_seed={mg.SEED_NAMES.get(s, str(s)): sum(1 for b in base if b["seed"] == s)
                                                   for s in sorted({b["seed"] for b in base})})
     rep.exhaustive = not quick
     # oracle (TLC) and observation (real code) side by side
@@ -120,8 +120,8 @@ def run(rep):
         def still_bad(cands):
             oc, _ = mg.oracle(cands, sorted(fid_of))
             ob = mg.observe(cands, ("lang", "tx"))
-            return [isinstance(_judge_one(rep, k, ob[k["id"]], oc[k["id"]], fid_of), tuple)
-                    and _judge_one(rep, k, ob[k["id"]], oc[k["id"]], fid_of)[0] == "violation" for k in cands]
+            vs = [_judge_one(rep, k, ob[k["id"]], oc[k["id"]], fid_of) for k in cands]
+            return [isinstance(v_, tuple) and v_[0] == "violation" for v_ in vs]
         small = mg.shrink(c0, still_bad, max_rounds=2)
         if small["toks"] != c0["toks"]:
             s2 = dict(small, id="shrunk")
